@@ -29,6 +29,8 @@ func genJSX(r *core.Run) []jsxCase {
 	var cases []jsxCase
 	tlcrun.MustHold(r, tlcrun.Options{
 		Module: "JsJsx", Config: "JsJsx.cfg", Workers: 2, TimeoutSec: 1800, HeapGB: 4,
+		// quick: the covering part + a seeded quarter of the attribute x children products; thorough: everything
+		Files: map[string]string{"JsJsx.cfg": fmt.Sprintf("SPECIFICATION Spec\nCONSTANTS\n  NParts = 8\n  Keep = %d\n  Seed = %d\nINVARIANTS\n  AllOK\nCHECK_DEADLOCK FALSE\n", r.Pick(4, 1), r.Seed%1000)},
 		OnCase: func(raw []byte) {
 			var c jsxCase
 			if err := json.Unmarshal(raw, &c); err != nil {
